@@ -227,6 +227,10 @@ pub fn try_wait_bg_jobs(sh: &mut shell::Shell, report: bool, sig_handler_enabled
     }
 
     let jobs = sh.jobs.clone();
+    // (verification build: a harness may decide the iteration order, which
+    // is the hash map's arbitrary order otherwise)
+    #[cfg(feature = "cicada_verif")]
+    let jobs = crate::verif_hooks::ordered_jobs(jobs);
     for (_i, job) in jobs.iter() {
         for pid in job.pids.iter() {
             if let Some(_status) = signals::pop_reap_map(*pid) {
